@@ -1,9 +1,10 @@
+use super::Scope;
 use crate::document::{as_position, DocumentRequest};
 use color_eyre::eyre::Result;
 use lsp_types::{Position, SemanticToken, SemanticTokens, SemanticTokensParams};
 use spl_frontend::{
     ast::{AstInfo, GlobalDeclaration, ProcedureDeclaration, TypeDeclaration},
-    table::{Entry, GlobalTable, LookupTable},
+    table::{Entry, GlobalTable, SymbolTable},
     tokens::{Token, TokenType},
     AnalyzedSource, ToRange,
 };
@@ -155,10 +156,7 @@ fn collect_proc_dec(
     tokens: &[Token],
     previous_token_pos: &mut Position,
 ) -> Vec<SemanticToken> {
-    let lookup_table = LookupTable {
-        local_table: super::get_local_table(pd, global_table),
-        global_table: Some(global_table),
-    };
+    let procedure = super::get_procedure_entry(pd, global_table);
     // index of the name token, relative to the reference of the declaration
     // (the identifier is the last token of its range, which might start with comments)
     let name_index = pd.name.as_ref().map(|name| name.to_range().end - 1);
@@ -177,7 +175,13 @@ fn collect_proc_dec(
                     SemanticTokenModifier::Declaration.into(),
                 ))
             } else if let TokenType::Ident(name) = &token.token_type {
-                lookup_table.lookup(name).map(|entry| match &entry {
+                let entry = match procedure {
+                    Some(procedure) => {
+                        Scope::of_token(pd, tokens, index).lookup(name, procedure, global_table)
+                    }
+                    None => global_table.lookup(name).map(Entry::from),
+                };
+                entry.map(|entry| match &entry {
                     Entry::Type(_) => create_semantic_token(
                         token,
                         *previous_token_pos,
